@@ -1,0 +1,24 @@
+//go:build verif
+
+// Contracts for the deductive verifier in /verif (comment-only; compiled only with -tags verif).
+package types
+
+// What validation guarantees about one asset (C04, C16): limits non-negative and ordered, swap amounts positive and
+// ordered, time locks ordered and within the module bounds, fixed fee non-negative.
+//@ define assetOK(a) = a.SupplyLimit.Limit >= 0 && a.SupplyLimit.TimeBasedLimit >= 0 && a.SupplyLimit.TimeBasedLimit <= a.SupplyLimit.Limit
+//@      && a.FixedFee >= 0 && a.MinSwapAmount > 0 && a.MaxSwapAmount > 0 && a.MinSwapAmount <= a.MaxSwapAmount
+//@      && a.MinBlockLock >= 50 && a.MaxBlockLock <= 34560 && a.MinBlockLock <= a.MaxBlockLock
+//@      && ufb("denom_valid", a.Denom) && bechok(a.DeputyAddress)
+//@ define assetsOK(s) = forall j:Int :: 0 <= j && j < len(s) ==> assetOK(s[j])
+
+//@ func validateAssetParams
+//@   inline
+//@   invariant #1 seen: forall j:Int :: 0 <= j && j <= rangeindex ==> assetOK(p.AssetParams[j])
+//@   invariant #1 idx:  rangeindex >= 0 - 1 && rangeindex < len(p.AssetParams)
+//@ end
+
+//@ func Params.Validate
+//@   property C16, C04
+//@   returns err
+//@   ensures valid: err == nil ==> assetsOK(p.AssetParams)
+//@ end
